@@ -1,6 +1,6 @@
 SPECIFICATION Spec
 CONSTANTS MaxNum = 3
-  Vals = {"a", "b"}
+  Vals = {"a"}
   OBJSTM = TRUE
   SEEKABLE = TRUE
   MaxOps = 4
